@@ -601,6 +601,24 @@ class Gen:
                     pending_inserts.append((ct[ob].end, f' let {pat} = &mut {expr}[{iv}]; {iv} += 1;', 'R8'))
                     pending_inserts.append((ct[rl.match_close(ct, ob)].end, ' }', 'R8'))
                     continue
+                if a.opts.get('desugar') == 'map_iter_mut':
+                    # R10 (pair form): `for PAT in &mut EXPR { BODY }` (EXPR an IndexMap place)  ==>
+                    #     { let mut __i: usize = 0; while __i < EXPR.len() INV { let PAT = EXPR.get_index_mut(__i).unwrap(); __i += 1; BODY } }
+                    j = kw + 1
+                    while not (ct[j].kind == 'id' and ct[j].text == 'in'):
+                        if ct[j].text in ('(', '['): j = rl.match_close(ct, j)
+                        j += 1
+                    pat = src[ct[kw + 1].start:ct[j - 1].end]
+                    if not (ct[j + 1].text == '&' and ct[j + 2].text == 'mut'):
+                        raise SpecError(f'LOST-ANCHOR: {region}: loop {n} is not `for PAT in &mut EXPR`')
+                    expr = src[ct[j + 3].start:ct[ob - 1].end]
+                    iv = a.opts.get('var', '__i')
+                    tx.edit(ct[kw].start, ct[ob].start,
+                            f'{{ let mut {iv}: usize = 0; while {iv} < {expr}.len()', 'R10', 'for-in-&mut-IndexMap desugared to index loop')
+                    pending_inserts.append((ct[ob].start, '\n' + a.text.rstrip() + '\n', 'loop'))
+                    pending_inserts.append((ct[ob].end, f' let {pat} = {expr}.get_index_mut({iv}).unwrap(); {iv} += 1;', 'R10'))
+                    pending_inserts.append((ct[rl.match_close(ct, ob)].end, ' }', 'R10'))
+                    continue
                 if a.opts.get('desugar') == 'values_mut':
                     # R10: `for PAT in EXPR.values_mut() { BODY }` (EXPR an IndexMap place)  ==>
                     #     { let mut __i: usize = 0; while __i < EXPR.len() INV { let PAT = EXPR.get_index_mut(__i).unwrap().1; __i += 1; BODY } }
